@@ -201,8 +201,8 @@ def replay_selection(unit, label, model):
     candidates = [sasl] if sasl.strip() else []
     candidates += ["PLAIN", "LOGIN", "OAUTHBEARER", "PLAIN LOGIN", "LOGIN PLAIN", "OAUTHBEARER LOGIN PLAIN", "X-UNKNOWN", "",
                    "DIGEST-MD5 PLAIN", "PLAIN DIGEST-MD5"]
-    for ann in candidates:
-        srv = ScriptedServer({}, authenticated=False)
+    for ann, first_no in [(a, f) for a in candidates for f in (False, True)]:
+        srv = ScriptedServer({"reply_is_ok": False} if first_no else {}, authenticated=False)
         c = managesieve.Client("reference.example")
         c.sock = srv
         setattr(c, "_Client__capabilities", {"SASL": ann} if has or True else {})
@@ -218,6 +218,8 @@ def replay_selection(unit, label, model):
         if exp == "DIGEST-MD5":
             continue  # known finding: the module cannot run
         ok = (used == ([exp] if exp else []))
+        if first_no and exp and outcome != "returned False":
+            ok = False
         results.append((ann, used, exp, outcome))
         if not ok:
             return {"confirmed": True, "outcome": outcome,
